@@ -95,6 +95,22 @@ Theorem C11_forwarding_fifo : forall p progs buf pend sched,
 Proof. intros p progs buf pend sched Hp. exact (pump_fifo p Hp progs buf pend sched). Qed.
 Print Assumptions C11_forwarding_fifo.
 
+(* ... and after the stream's SYN: in the linearisation log (= the wire, C11_wire_is_log) every frame logged by the
+   forwarding task is preceded by the SYN frame of its stream, and everything still in the channel belongs to a stream
+   whose SYN is already logged. The SYN is written directly by open_stream (task u), the data by the forwarding task p:
+   this is an ordering ACROSS tasks, obtained from the invariant "a task that holds a stream id is either still inside
+   open_stream with that stream's SYN in hand, or the SYN is in the log" (open_ok), the FIFO above and C11_task_order.
+   "A stream opened on a brand-new or shared session never has its first data frame overtaken or dropped." *)
+Theorem C11_forwarding_syn_first : forall p progs buf pend sched,
+  p <> rtid -> only_pump (nth p progs []) -> (forall u, u <> p -> ~ In CPump (nth u progs [])) ->
+  Forall (fun x => fst x <> p) pend ->
+  let s := run (init progs buf pend) sched in
+  closed s = false ->
+  (forall l1 l2 f, lin s = l1 ++ (p, f) :: l2 -> exists u, In (u, syn_frame (fsid f)) l1) /\
+  (forall u f, In (u, f) (pushed s) -> In (u, syn_frame (fsid f)) (lin s)).
+Proof. intros p progs buf pend sched Hp A B C. exact (run_syn_first p Hp progs buf pend sched A B C). Qed.
+Print Assumptions C11_forwarding_syn_first.
+
 (* non-vacuity: two openers racing on a fresh session with pre-emption in the middle of both opens *)
 Example C11_nonvacuous :
   let progs := [[]; [COpen; CDisableBuf; CData [1]]; [COpen; CDisableBuf; CData [2]]] in
